@@ -151,6 +151,56 @@ func runActCase(cs *ActCase) (fs []finding) {
 			add("empty-action:panicking-callback:"+cs.Shape, "the %s callback panicked with a value of kind %s; the run came back as a SUCCESS with the empty action (routed inside a flow: %v)", cs.Shape, cs.Build, cs.Routed)
 		}
 		return
+	case "batch-no-exec":
+		// a batch node with a prep and a post but no exec function (an aggregating step): still a successful run with a non-empty action
+		prep := func(ctx context.Context, s *flyt.SharedStore) ([]flyt.Result, error) {
+			items := make([]flyt.Result, cs.N)
+			for i := range items {
+				items[i] = flyt.NewResult(i)
+			}
+			return items, nil
+		}
+		bn := flyt.NewBatchNode().WithBatchConcurrency(cs.C).WithPrepFunc(prep).
+			WithPostFunc(func(ctx context.Context, s *flyt.SharedStore, items, results []flyt.Result) (flyt.Action, error) {
+				return flyt.Action(cs.Post), nil
+			})
+		node = bn
+		if cs.N%2 == 1 {
+			node = bn.BatchNode
+		}
+	case "connect-after-run":
+		// the flow has run once (the node returned another action then); the connection on the reported action is made
+		// afterwards, on a node that already has connections
+		kind := 0
+		for i, n := range scen.KindNames {
+			if n == cs.Shape {
+				kind = i
+			}
+		}
+		sc := &scen.Scenario{Nodes: []scen.NodeSpec{{Kind: kind, N: 1, Visits: []scen.Visit{{FirstOK: 1, Post: "first-run"}, {FirstOK: 1, Post: cs.Post}}}}, Root: 0, Runs: 1}
+		n0 := scen.NewExec(sc).RootNode()
+		hits := 0
+		probe := &probeNode{flyt.NewBaseNode(), &hits}
+		other := &probeNode{flyt.NewBaseNode(), new(int)}
+		f := flyt.NewFlow(n0)
+		f.Connect(n0, "elsewhere", other)
+		var outer flyt.Node = f
+		if cs.Build == "nested" {
+			outer = flyt.NewFlow(f)
+		}
+		if _, err := flyt.Run(context.Background(), outer, flyt.NewSharedStore()); err != nil {
+			add("flow-failed:"+cs.Kind, "first run failed: %v", err)
+			return
+		}
+		f.Connect(n0, flyt.Action(want), probe) // after the first run
+		if _, err := flyt.Run(context.Background(), outer, flyt.NewSharedStore()); err != nil {
+			add("flow-failed:"+cs.Kind, "second run failed: %v", err)
+			return
+		}
+		if hits != 1 {
+			add("connection-not-followed:connect-after-run:"+cs.Shape, "the flow had run once; then (%s node, %q) was connected and the flow run again with post returning %q: the new connection was followed %d times", cs.Shape, want, cs.Post, hits)
+		}
+		return
 	case "batch-post-by-option":
 		// whatever the library does with a post function given as a constructor option (today: the batch's own default
 		// post stays in charge), a successful run reports a non-empty action
@@ -321,6 +371,7 @@ func init() {
 
 func runC18(c *Cfg) {
 	r := c.Rep
+	runSpecial(c, "C18", "default-post")
 	var cases []*ActCase
 	for _, post := range []string{"", "default", "custom", " ", "\t\n"} {
 		for _, routed := range []bool{false, true} {
@@ -358,6 +409,18 @@ func runC18(c *Cfg) {
 				for _, ph := range []string{"prep", "exec", "post"} {
 					for _, vk := range []string{"int", "struct", "ptr", "nil-error-iface", "bool"} {
 						cases = append(cases, &ActCase{Family: "grid-panicking-callback", Kind: "panicking-callback", Post: post, Routed: routed, FailAt: -1, Shape: ph, Build: vk})
+					}
+				}
+			}
+			for n := 1; n <= 3; n++ {
+				for cc := 0; cc <= 2; cc++ {
+					cases = append(cases, &ActCase{Family: "grid-batch-without-exec-function", Kind: "batch-no-exec", Post: post, Routed: routed, N: n, C: cc, FailAt: -1})
+				}
+			}
+			if routed {
+				for _, kn := range []string{"base", "fnBldAny", "plain"} {
+					for _, b := range []string{"flat", "nested"} {
+						cases = append(cases, &ActCase{Family: "grid-connect-after-first-run", Kind: "connect-after-run", Post: post, Routed: true, FailAt: -1, Shape: kn, Build: b})
 					}
 				}
 			}
